@@ -273,6 +273,38 @@ func ruleProvExt(c *Ctx, r *Rep) {
 	if n < 4 && c.Mod == modPath {
 		r.Undecided("floor:extension-loops", "", sprintf("%d extension-list loops found, expected at least 4 (parse, profile, builders, compile)", n))
 	}
+	// the parser hands the decoded extension structs on unchanged: what it appends is the reflected value itself
+	pv := c.newProv()
+	for _, fn := range c.Funcs {
+		usesReflect := false
+		for _, ci := range callsIn(fn) {
+			if calleeFullName(ci) == "(reflect.Value).Interface" {
+				usesReflect = true
+			}
+		}
+		if !usesReflect {
+			continue
+		}
+		for _, ci := range callsIn(fn) {
+			bi, ok := ci.Common().Value.(*ssa.Builtin)
+			if !ok || bi.Name() != "append" || !isExtList(ci.Common().Args[0].Type()) {
+				continue
+			}
+			var elems []string
+			for _, o := range pv.Origins(ci.(*ssa.Call)) {
+				if strings.HasPrefix(o, "elem:") {
+					elems = append(elems, o)
+				}
+			}
+			ok2 := len(elems) > 0
+			for _, e := range elems {
+				if !strings.HasPrefix(e, "elem:(reflect.Value).Interface(") || strings.Contains(e, "lit{") {
+					ok2 = false
+				}
+			}
+			r.Check(ok2, "parser-passes-through|"+c.FuncKey(fn), c.Pos(ci.Pos()), "the parsed extension list holds the decoded structs themselves (all their fields: raw, critical, content)", strings.Join(head(elems, 3), " , "))
+		}
+	}
 	// the ranges ascend: every range over an extension list is a rangeindex loop (go/ssa emits +1 steps); a reverse loop would use explicit arithmetic
 	// and be caught by the index rule above.
 }
